@@ -112,6 +112,14 @@ class SyncRun:
                  sessions=('a', 'b'), controlled: bool = True,
                  boxes=('Box',), world_kw: dict | None = None,
                  claim_recent=False, box_msgs: dict | None = None):
+        # everything a replay needs: how the run was set up and every driver action on it
+        self.recipe = {'init': _jd({'backend': backend, 'init_flags': list(init_flags),
+                                   'sessions': list(sessions), 'controlled': controlled,
+                                   'boxes': list(boxes), 'world_kw': world_kw,
+                                   'claim_recent': claim_recent if isinstance(claim_recent, bool)
+                                   else sorted(claim_recent), 'box_msgs': box_msgs}),
+                       'fetch_subject': FETCH_SUBJECT[0], 'actions': []}
+        self._rec_depth = 0
         self.w = World(backend, **(world_kw or {}))
         self.backend = backend
         self.sessions = list(sessions)
@@ -365,6 +373,15 @@ class SyncRun:
                         fe['bound'] = self._bound.get(s, '')
                         nm = self.selected_name(s)
                         fe['nowobj'] = self.obj_of(nm) if nm else ''
+                # the message is no longer in the store (expunged by somebody, this session not
+                # told yet): what the server answers about it is an answer about a ghost
+                fe['gone'] = False
+                if self.backend == 'dict':
+                    nm = self.selected_name(s)
+                    data = self._data(nm) if nm else None
+                    sv = self.server_view(s) or []
+                    u = fe['uid'] or (sv[r.num - 1] if 0 < r.num <= len(sv) else 0)
+                    fe['gone'] = bool(data is not None and u and u not in data._messages)
                 ev.append(fe)
             elif r.name == b'SEARCH':
                 inf = self.inflight[s]
@@ -446,7 +463,11 @@ class SyncRun:
                             'srcobj': inf.get('srcobj', '') if inf else '',
                             'dstobj': o,
                             'src': _expand(src), 'dst': _expand(dst),
-                            'move': bool(inf and inf['cmd'][0] == 'move')})
+                            'move': bool(inf and inf['cmd'][0] == 'move'),
+                            # the object the selection was made on / the one now behind its name
+                            'bound': self._bound.get(s, '') if self.backend == 'dict' else '',
+                            'nowobj': (self.obj_of(self.selected_name(s)) or '')
+                            if self.backend == 'dict' and self.selected_name(s) else ''})
 
     # -- driver actions ------------------------------------------------------------
 
@@ -683,6 +704,20 @@ class SyncRun:
         self.w.run(s)
         self.collect()
 
+    def gate(self, s: str, on: bool) -> None:
+        """a slow client: writes to s block in drain() until the gate is opened"""
+        self.w.conns[s].writer.gate_drain = bool(on)
+
+    def make_readonly_box(self, name: str = 'RO', n: int = 2) -> None:
+        """a backend-read-only mailbox with n messages, as pymap's demo data makes one (C12)"""
+        s0 = self.sessions[0]
+        for _ in range(n):
+            self.w.cmd(s0, b'APPEND ' + name.encode() + b' {3+}\r\nx\r\n')
+        self.w.conns[s0].take()
+        self.parse_off[s0] = len(self.w.conns[s0].writer.out)
+        self.w.mailbox_set()._set[name]._readonly = True
+        self._known_uids = self.store_uids()
+
     def close(self) -> None:
         self.w.close()
 
@@ -703,6 +738,19 @@ def _j(x):
     return list(x) if isinstance(x, tuple) else x
 
 
+def _jd(x):
+    """deep JSON-able copy (tuples and sets become lists)"""
+    if isinstance(x, (tuple, list)):
+        return [_jd(y) for y in x]
+    if isinstance(x, (set, frozenset)):
+        return sorted(_jd(y) for y in x)
+    if isinstance(x, dict):
+        return {str(k): _jd(v) for k, v in x.items()}
+    if isinstance(x, bytes):
+        return x.decode('latin1')
+    return x
+
+
 def run_schedule(schedule: list, **kw) -> SyncRun:
     """Execute a list of driver actions; returns the SyncRun (already closed)."""
     r = SyncRun(**kw)
@@ -718,6 +766,8 @@ def run_schedule(schedule: list, **kw) -> SyncRun:
                 r.step(act[1])
             elif k == 'finish':
                 r.finish(act[1])
+            elif k == 'micro':
+                r.micro(act[1])
             elif k == 'cmd':
                 if r.can_issue(act[1]):
                     r.issue(act[1], tuple(act[2]))
@@ -738,4 +788,54 @@ def run_schedule(schedule: list, **kw) -> SyncRun:
                 raise ValueError(act)
     finally:
         r.close()
+    return r
+
+
+def _tup(x):
+    return tuple(_tup(y) for y in x) if isinstance(x, list) else x
+
+
+_RECORDED = ('issue', 'step', 'micro', 'finish', 'quiesce', 'probe', 'idlecheck', 'reconnect',
+             'unanswered_idle', 'cancel', 'drop', 'dump', 'state_event', 'gate', 'make_readonly_box')
+
+
+def _recording(name, fn):
+    def wrapper(self, *a, **kw):
+        if self._rec_depth == 0:
+            self.recipe['actions'].append([name, _jd(list(a)), _jd(kw)])
+        self._rec_depth += 1
+        try:
+            return fn(self, *a, **kw)
+        finally:
+            self._rec_depth -= 1
+    wrapper.__name__ = name
+    wrapper.__doc__ = fn.__doc__
+    return wrapper
+
+
+for _n in _RECORDED:
+    setattr(SyncRun, _n, _recording(_n, getattr(SyncRun, _n)))
+
+
+def run_recipe(recipe: dict) -> SyncRun:
+    """Set a run up as recorded and repeat every driver action on it; returns the SyncRun
+    (closed).  An action that cannot be repeated (the server is not where it was) ends the
+    replay there."""
+    init = dict(recipe['init'])
+    init['init_flags'] = [_tup(f) for f in init.get('init_flags') or []]
+    if isinstance(init.get('claim_recent'), list):
+        init['claim_recent'] = set(init['claim_recent'])
+    old = FETCH_SUBJECT[0]
+    FETCH_SUBJECT[0] = bool(recipe.get('fetch_subject'))
+    r = SyncRun(**init)
+    try:
+        for name, a, kw in recipe['actions']:
+            try:
+                getattr(r, name)(*[_tup(x) for x in a], **kw)
+            except Exception as exc:      # noqa: BLE001
+                r.errors.append(f'replay stopped at {name}{a}: {exc!r}')
+                break
+    finally:
+        r.close()
+        FETCH_SUBJECT[0] = old
     return r
